@@ -20,7 +20,8 @@ import walkerlib
 
 def run(c):
     thorough = c.tier == "thorough"
-    c.rule = ("random histories (3-12 calls) of Engine.Run over a pool of 6 type-checked files x 2 TruncateLen settings on one engine "
+    c.rule = ("random histories (3-12 calls) of Engine.Run over a pool of 10 type-checked files (two of them exist only in memory, two are "
+              "packages of the same path whose equal-named types disagree) x 2 TruncateLen settings on one engine "
               "with a shared / nil / two pooled RunnerStates; a third of the calls have a Report callback that panics at a random "
               "report, a quarter run on a state into which stale left-overs were put (node path, dead flag, current function, "
               "operand stack + variadic-length register, capture preset), a fifth repeat the previous call; the rule set is one of "
@@ -28,7 +29,9 @@ def run(c):
               "Contains() rules whose outer pattern binds none / some / all of the sub-pattern's variables (binder and free-variable "
               "rules for the same name, random order) + custom bytecode filters with fmt.Sprintf calls of arity 0-3 inside "
               "if / else / && / || / loop / helper-function positions followed by a call of the same or another arity; plus, per "
-              "(variant, file), the whole-file run vs. runs over each top-level declaration alone and over each top-level statement of every function body alone; every report is one evaluation; "
+              "(variant, file), the whole-file run vs. runs over each top-level declaration alone and over each top-level statement of every function body alone, "
+              "and vs. a child process that runs rule sets, files and declarations in the opposite order; engines that grow (Load; Run; Load of "
+              "custom filters with helper functions; Run ... with nil / shared / pooled states) vs. fresh engines that loaded the same files; every report is one evaluation; "
               "a case is non-trivial and distinct by (state kind, dirty?, panicking?, previous call's file = this file?, previous "
               "call panicked?), by generated rule kind that reported in a history, and by (rule kind, file) in the locality runs")
     c.trusted += walkerlib.TRUSTED + [
@@ -66,7 +69,7 @@ def run(c):
                 for k, v in kinds.items():
                     c.coverage["generated_rules:" + k.split("/same")[0]] = c.coverage.get("generated_rules:" + k.split("/same")[0], 0) + v
                 fam = set(k.split("/")[0] + "/" + k.split("/")[1] for k in kinds if "/" in k)
-                if o["reports"] < 11 or "do/conditional-report-or-suggest" not in kinds or not {"contains/binder", "contains/free-variable"} <= fam or not any(k.startswith("variadic/") for k in fam):
+                if o["reports"] < 14 or "do/conditional-report-or-suggest" not in kinds or not {"contains/binder", "contains/free-variable"} <= fam or not any(k.startswith("variadic/") for k in fam):
                     c.obligation("harness:history-rules", False, "rule groups dropped: %s; kinds %s" % (o.get("err"), sorted(kinds)))
                 continue
             if o.get("err"):
@@ -90,6 +93,31 @@ def run(c):
                            expected="the run over the whole file reports, declaration by declaration (statement by statement), what a run over a file with only that declaration (only that statement in its function) reports",
                            observed=o["mismatch"])
                 continue
+            if o["k"] == "grow":
+                # Load; Run; Load; Run ... on one engine vs. a fresh engine that loaded the same files before any run
+                c.count(max(o["reports"], 1))
+                c.coverage["growing_engine_histories"] = c.coverage.get("growing_engine_histories", 0) + 1
+                for k in (o.get("kinds") or {}):
+                    c.nontriv(("grow", k))
+                for call in (o.get("calls") or []):
+                    c.nontriv(("grow-run", call["state"]))
+                if o.get("mismatch"):
+                    c.fail("oracle", "a Run on an engine that loaded further rules files after earlier runs differs from the same run on a fresh engine that loaded the same files: " + o["mismatch"],
+                           input={"rules_files_in_load_order": o.get("rules"), "runs": o.get("calls"), "files": o.get("srcs"), "seed": seed, "history_index": o["history"]},
+                           expected="identical report sequence", observed=o["mismatch"])
+                continue
+            if o["k"] == "cold":
+                # the same (rule set, file) in another process that did everything in the opposite order
+                c.count(max(o["reports"], 1))
+                c.coverage["cold_process_references"] = c.coverage.get("cold_process_references", 0) + 1
+                for k in (o.get("kinds") or {}):
+                    if k != "fixed":
+                        c.nontriv(("cold", k.split("/same")[0]))
+                if o.get("mismatch"):
+                    c.fail("oracle", "the reports of a run depend on what the process ran before (other rule sets, files, declarations): " + o["mismatch"],
+                           input={"rules": o.get("rules"), "file": (o.get("srcs") or [None])[0], "seed": seed, "variant": o.get("variant")},
+                           expected="the same reports in both processes", observed=o["mismatch"])
+                continue
             n += 1
             c.count(max(o["reports"], 1))
             for k in (o.get("kinds") or {}):
@@ -112,6 +140,8 @@ def run(c):
         if rc != 0 or n == 0:
             c.obligation("harness-run:history", False, out[-2000:])
         c.coverage["histories"] = c.coverage.get("histories", 0) + n
+        if not c.coverage.get("cold_process_references") or not c.coverage.get("growing_engine_histories"):
+            c.obligation("harness-run:history-cold-and-grow", False, "no cold-process reference / growing-engine history ran")
 
     def events(nrepo, nstd, ngen, size, tag, seed, variants):
         obs = walkerlib.run_events(c, hb, walkerlib.pick_files(c, nrepo, nstd), ngen, size, variants=variants, seed=seed)
